@@ -58,7 +58,7 @@ func genExpScenario(rt *rapid.T) expScenario {
 		if far >= 0 && chance(rt, 70, "far.other") {
 			a.C = 1 - far
 		}
-		a.K = pick(rt, []string{"Add", "ReAdd", "Set", "SetPreserve", "WriteCas", "Touch", "Touch", "GetAndTouchRaw", "GetAndTouchRaw", "WriteWithXattrs", "Update", "UpdateExp", "UpdateXattrs", "WriteUpdateX", "WriteUpdateXRetry", "SetWithMeta", "Delete", "DeleteWithXattrs", "Remove", "Incr", "Reopen", "Recreate"}, "k")
+		a.K = pick(rt, []string{"Add", "ReAdd", "Set", "SetPreserve", "WriteCas", "Touch", "Touch", "GetAndTouchRaw", "GetAndTouchRaw", "WriteWithXattrs", "Update", "UpdateExp", "UpdateXattrs", "WriteUpdateX", "WriteUpdateXRetry", "SetWithMeta", "Delete", "DeleteWithXattrs", "Remove", "Incr", "Reopen", "Recreate", "SetPast"}, "k")
 		a.TTL = pick(rt, []int{1, 1, 2, 2, 3, 4, 0, 60, 3600}, "ttl")
 		a.Abs = rapid.Bool().Draw(rt, "abs")
 		if a.K == "Reopen" && !sc.Disk {
@@ -170,6 +170,13 @@ func runExpScenario(sc expScenario, windowSec int) (res expResult) {
 			err = ds.Set(a.Key, exp, nil, body)
 			if err == nil {
 				m.live, m.deadline, wrote = true, newDeadline(), true
+			}
+		case "SetPast":
+			// an absolute expiry that is already over when the document is written: due at once
+			past := now - 1
+			err = ds.Set(a.Key, past, nil, body)
+			if err == nil {
+				m.live, m.deadline, wrote = true, past, true
 			}
 		case "SetPreserve":
 			err = ds.Set(a.Key, exp, &sgbucket.UpsertOptions{PreserveExpiry: true}, body)
@@ -370,7 +377,13 @@ func runExpScenario(sc expScenario, windowSec int) (res expResult) {
 				return true
 			}, nil)
 		case "Reopen":
-			if rerr := w.Reopen(); rerr != nil {
+			// (TTL doubles as "how long the bucket stays closed": 0 or up to 2.4 s, so that deadlines pass
+			// while nobody has it open)
+			closedFor := time.Duration(0)
+			if a.TTL >= 1 && a.TTL <= 4 {
+				closedFor = time.Duration(a.TTL) * 600 * time.Millisecond
+			}
+			if rerr := w.ReopenAfter(closedFor); rerr != nil {
 				bad("exp.reopen", "reopen failed: %v", rerr)
 			}
 			startFeeds()
